@@ -407,7 +407,11 @@ def exec_op(world: World, op):
         else:
             thunk = lambda: node.append_child(a)
     elif name == 'setitem':
-        a = _arg(world, op[3], node)
+        if op[3] == ['same']:
+            # the child that already sits at this index (`node[i] = node[i]`)
+            a = node[op[2]] if -len(node) <= op[2] < len(node) else None
+        else:
+            a = _arg(world, op[3], node)
         if a is None:
             return None
         lean = ['setitem', pl, op[2], world.dump(a)]
@@ -687,7 +691,7 @@ def rand_op(rng, world: World, max_nodes=70):
             idx = rng.randrange(-n, n) if n and not bad else rng.choice([n, -n - 1, n + 3])
             if n and not bad and rng.random() < 0.3:
                 # store the child at the position it already occupies (`node[i] = node[i]`, positive or negative i)
-                op = ['setitem', path, idx, ['kid', idx % n]]
+                op = ['setitem', path, idx, ['same']]
             else:
                 op = ['setitem', path, idx, rand_arg(rng, world)]
         elif name == 'setslice':
@@ -791,7 +795,7 @@ ALPHABET_EXTRA = [
     ['addmeas', [], [[1, F(1, 2), F(1)]], 'iter'], ['addmeas', [0, 0], [], 'iter'], ['dropmeas', [0]],
     ['addmeas', [1], [], 'list'], ['dropmeas', []],
     ['copy', [0], False], ['copy', [0], 'empty'], ['copy', [0, 0], 'nonempty'],
-    ['setitem', [], 0, ['kid', 0]], ['setitem', [], -1, ['kid', 1]], ['setitem', [0], 0, ['kid', 0]],
+    ['setitem', [], 0, ['same']], ['setitem', [], -1, ['same']], ['setitem', [0], 0, ['same']],
     ['setslice', [], 1, 1, None, [_LEAF], [[0, []]]], ['setslice', [0], None, None, None, [], [[0, []], [0, [0]]]],
 ]
 
